@@ -117,6 +117,19 @@ def check_run(chk: core.Check, r: dict, label, replay_rows: int):
                      f'(row has {len(vals)} values for {len(outs)} header columns)', {**rep, 'row': row, 'header': header, 'skipped_outputs': missing})
         else:
             chk.tag('row/aligned')
+    # ---- the row text read back by the Lean model of main's parser = the independent reading (every row) -----------------------------------------
+    if rows:
+        pres = chk.driver([f'mcparse p{k} row={enc(row)}' for k, row in enumerate(rows)])
+        for k, row in enumerate(rows):
+            head, kv = core.parse_kv(pres.get(f'p{k}', 'missing'))
+            vals, _ = mc.parse_row(row)
+            got = [dec(c) for c in kv['cells'].split(';')] if head == 'ok' and kv.get('cells') else []
+            if head != 'ok' or got != vals:
+                chk.broken('C14/correspondence/row-parse', 'the Lean model of the statistics step\'s row parser and the independent reading disagree on a row', {**rep, 'row': row, 'lean': got, 'independent': vals},
+                           'correspondence-break')
+                break
+        else:
+            chk.tag('row/parse-model-agrees', len(rows))
     # ---- (b) statistics -------------------------------------------------------------------------------------------------------------------
     if not rows:
         return
